@@ -1,19 +1,34 @@
 import DiscretModel.Model.Lock
 /-
-Connection side of the room-lock protocol (`peer_inbound_service.rs`, `LocalPeerService::start`,
-`process_acquired_room`, `cleanup`), composed with the lock service model.
+Connection side of the room-lock protocol (`peer_inbound_service.rs`: `LocalPeerService::start`,
+`process_acquired_room`, the clean-up when the connection loop ends), composed with the lock
+service model. Import-free.
 
 A connection owns one reply channel. Grants sent by the service sit in `inbox` until the connection
 loop receives them; each received grant spawns a task which
   phase 0: has not yet inserted the room into `acquired`
   phase 1: inserted, synchronising                         (the room is "being synchronised")
   phase 2: has sent `Unlock(room)`, not yet removed it from `acquired`
-and then disappears. When the loop ends (`close`), `cleanup` sends `Unlock` for every room in
-`acquired`, the receiver is dropped, and the tasks keep running.
-Import-free.
+and then disappears. When the loop ends (`close`):
+  * code as fixed (`Defects.none`): the receiver is closed, the grants still in the inbox are
+    released (`Unlock`), the running tasks release their own room when they end;
+  * `cleanupUnlocksAcquired` (the code before the fix): `Unlock` is sent for every room in
+    `acquired` while the tasks keep running (and will unlock again), then the receiver is dropped;
+  * `inflightNotReleased` (the code before the fix): grants still in the inbox are discarded.
 -/
 namespace Discret.LockConn
 open Discret.Lock
+
+structure Defects where
+  cleanupUnlocksAcquired : Bool
+  inflightNotReleased : Bool
+deriving Repr, DecidableEq
+
+def Defects.none : Defects := { cleanupUnlocksAcquired := false, inflightNotReleased := false }
+/-- the code before `fix: release each room lock exactly once when a connection ends` -/
+def Defects.beforeFix : Defects := { cleanupUnlocksAcquired := true, inflightNotReleased := true }
+/-- what /repo does now (validated by the correspondence run of engine `lockconn`) -/
+def Defects.asImplemented : Defects := Defects.none
 
 structure Conn where
   peer : Peer
@@ -30,60 +45,93 @@ structure Sys where
 deriving Repr, DecidableEq
 
 inductive SOp where
-  | request (c : Nat) (rooms : List Room)   -- connection index
+  | conn (i : Nat)                          -- a new connection (peer id and channel derived from i)
+  | request (c : Nat) (rooms : List Room)   -- connection c asks for locks
   | recv (c : Nat)                          -- the loop receives the oldest grant and spawns its task
-  | task (c : Nat) (r : Room)               -- the task of room r on connection c advances one phase
-  | close (c : Nat)                         -- the loop ends: cleanup, receiver dropped
+  | task (c : Nat) (k : Nat)                -- the k-th task of connection c advances one phase
+  | close (c : Nat)                         -- the loop ends
+  | raw (op : Op)                           -- a party outside the model talks to the lock service directly
 deriving Repr, DecidableEq
 
-def deliver (conns : List Conn) (gs : List (Ch × Room)) : List Conn :=
-  gs.foldl (fun cs g => cs.map fun c => if c.ch = g.1 && !c.closed then { c with inbox := c.inbox ++ [g.2] } else c) conns
+/-- channel of modelled connection `i`; channels below this bound belong to outside parties -/
+def connCh (i : Nat) : Ch := 100000 + i
 
-def svcStep (s : Sys) (op : Op) : Sys :=
+def deliverOne (conns : List Conn) (g : Ch × Room) : List Conn :=
+  conns.map fun c => if c.ch = g.1 && !c.closed then { c with inbox := c.inbox ++ [g.2] } else c
+
+def deliver (conns : List Conn) (gs : List (Ch × Room)) : List Conn := gs.foldl deliverOne conns
+
+/-- a service step; grants to modelled connections go to their inbox, the others are returned -/
+def svcStep (s : Sys) (op : Op) : Sys × List (Ch × Room) :=
   let res := step s.svc op
-  { svc := res.1, conns := deliver s.conns res.2 }
+  ({ svc := res.1, conns := deliver s.conns res.2 }, res.2.filter fun g => g.1 < connCh 0)
 
 def setConn (s : Sys) (i : Nat) (c : Conn) : Sys := { s with conns := s.conns.set i c }
 
-def advance (r : Room) : List (Room × Nat) → List (Room × Nat) × Option Nat
-  | [] => ([], none)
-  | (r', ph) :: t =>
-    if r' = r then (if ph < 2 then (r', ph + 1) :: t else t, some ph)
-    else let res := advance r t; ((r', ph) :: res.1, res.2)
+/-- advance the `k`-th task: returns the new task list and `(room, phase before)` -/
+def advance : Nat → List (Room × Nat) → List (Room × Nat) × Option (Room × Nat)
+  | _, [] => ([], none)
+  | 0, (r, ph) :: t => (if ph < 2 then (r, ph + 1) :: t else t, some (r, ph))
+  | k + 1, x :: t => let res := advance k t; (x :: res.1, res.2)
 
-def sstep (s : Sys) : SOp → Sys
+def unlockAll (s : Sys) (rooms : List Room) : Sys × List (Ch × Room) :=
+  rooms.foldl (fun acc r => let res := svcStep acc.1 (.unlock r); (res.1, acc.2 ++ res.2)) (s, [])
+
+def sstep (d : Defects) (s : Sys) : SOp → Sys × List (Ch × Room)
+  | .conn i =>
+    if s.conns.length = i then
+      ({ s with conns := s.conns ++ [{ peer := i, ch := connCh i, inbox := [], acquired := [], tasks := [], closed := false }] }, [])
+    else (s, [])
   | .request i rooms =>
     match s.conns[i]? with
-    | some c => if c.closed then s else svcStep s (.request c.peer rooms c.ch)
-    | none => s
+    | some c => if c.closed then (s, []) else svcStep s (.request c.peer rooms c.ch)
+    | none => (s, [])
   | .recv i =>
     match s.conns[i]? with
     | some c =>
-      if c.closed then s else
+      if c.closed then (s, []) else
       match c.inbox with
-      | [] => s
-      | r :: rest => setConn s i { c with inbox := rest, tasks := c.tasks ++ [(r, 0)] }
-    | none => s
-  | .task i r =>
+      | [] => (s, [])
+      | r :: rest => (setConn s i { c with inbox := rest, tasks := c.tasks ++ [(r, 0)] }, [])
+    | none => (s, [])
+  | .task i k =>
     match s.conns[i]? with
     | some c =>
-      let res := advance r c.tasks
+      let res := advance k c.tasks
       match res.2 with
-      | some 0 => setConn s i { c with tasks := res.1, acquired := r :: c.acquired }
-      | some 1 => svcStep (setConn s i { c with tasks := res.1 }) (.unlock r)
-      | some _ => setConn s i { c with tasks := res.1, acquired := c.acquired.erase r }
-      | none => s
-    | none => s
+      | some (r, 0) => (setConn s i { c with tasks := res.1, acquired := r :: c.acquired }, [])
+      | some (r, 1) => svcStep (setConn s i { c with tasks := res.1 }) (.unlock r)
+      | some (r, _) => (setConn s i { c with tasks := res.1, acquired := c.acquired.erase r }, [])
+      | none => (s, [])
+    | none => (s, [])
   | .close i =>
     match s.conns[i]? with
     | some c =>
-      if c.closed then s else
-      let s1 := setConn s i { c with closed := true, inbox := [] }
-      let s2 := c.acquired.foldl (fun acc r => svcStep acc (.unlock r)) s1
-      svcStep s2 (.drop c.ch)
-    | none => s
+      if c.closed then (s, []) else
+      if d.cleanupUnlocksAcquired then
+        -- before the fix: unlock what is being synchronised, then the receiver goes away
+        let s1 := setConn s i { c with closed := true, inbox := [] }
+        let r2 := unlockAll s1 c.acquired
+        let r3 := svcStep r2.1 (.drop c.ch)
+        let r4 := if d.inflightNotReleased then (r3.1, []) else unlockAll r3.1 c.inbox
+        (r4.1, r2.2 ++ r3.2 ++ r4.2)
+      else
+        -- fixed: close the receiver, release the grants still in flight
+        let s1 := setConn s i { c with closed := true, inbox := [] }
+        let r2 := svcStep s1 (.drop c.ch)
+        let r3 := if d.inflightNotReleased then (r2.1, []) else unlockAll r2.1 c.inbox
+        (r3.1, r2.2 ++ r3.2)
+    | none => (s, [])
+  | .raw op => svcStep s op
 
-def srun (s : Sys) (ops : List SOp) : Sys := ops.foldl sstep s
+def srunOut (d : Defects) : Sys → List SOp → Sys × List (Ch × Room)
+  | s, [] => (s, [])
+  | s, op :: ops =>
+    let r1 := sstep d s op
+    let r2 := srunOut d r1.1 ops
+    (r2.1, r1.2 ++ r2.2)
+
+def srun (d : Defects) (s : Sys) (ops : List SOp) : Sys := (srunOut d s ops).1
 
 /-- connections currently synchronising room `r` (task in phase 1) -/
 def syncing (s : Sys) (r : Room) : List Nat :=
@@ -92,10 +140,69 @@ def syncing (s : Sys) (r : Room) : List Nat :=
 /-- room `r` is locked in the service but no connection will ever release it -/
 def orphaned (s : Sys) (r : Room) : Bool :=
   s.svc.locked.contains r &&
-    s.conns.all fun c => !(c.inbox.contains r) && !(c.tasks.any fun t => t.1 = r) && !(c.acquired.contains r)
+    s.conns.all fun c => !(c.inbox.contains r) && !(c.tasks.any fun t => t.1 = r && t.2 < 2)
 
-def sinit (max : Nat) (n : Nat) : Sys :=
-  { svc := init max,
-    conns := (List.range n).map fun i => { peer := i + 1, ch := i + 1, inbox := [], acquired := [], tasks := [], closed := false } }
+def sinit (max : Nat) : Sys := { svc := init max, conns := [] }
+
+/-! ### the eager schedule of the correspondence run
+
+On a single-threaded runtime driven to quiescence after every harness operation, a grant is received
+at once and its task runs up to its first remote query: `recv` then `task` (phase 0 → 1). -/
+
+def settleConn (d : Defects) (s : Sys) (i : Nat) : Nat → Sys
+  | 0 => s
+  | fuel + 1 =>
+    match s.conns[i]? with
+    | some c =>
+      match c.inbox with
+      | [] => s
+      | _ :: _ =>
+        if c.closed then s else
+        let s1 := (sstep d s (.recv i)).1
+        let s2 := (sstep d s1 (.task i c.tasks.length)).1     -- the task just spawned is the last one
+        settleConn d s2 i fuel
+    | none => s
+
+def settle (d : Defects) (s : Sys) : Sys :=
+  (List.range s.conns.length).foldl
+    (fun acc i => settleConn d acc i ((acc.conns[i]?.map fun c => c.inbox.length).getD 0)) s
+
+/-- harness-level operations of engine `lockconn` -/
+inductive HOp where
+  | conn (i : Nat)
+  | cready (i : Nat) (rooms : List Room)
+  | cevent (i : Nat) (r : Room)
+  | finish (i : Nat) (r : Room)
+  | close (i : Nat)
+  | raw (op : Op)
+deriving Repr, DecidableEq
+
+/-- index of the oldest task of connection `i` that is synchronising room `r` -/
+def syncIdx (s : Sys) (i : Nat) (r : Room) : Option Nat :=
+  match s.conns[i]? with
+  | some c => c.tasks.findIdx? fun t => t.1 = r && t.2 = 1
+  | none => none
+
+def hstep (d : Defects) (s : Sys) (op : HOp) : Sys × List (Ch × Room) :=
+  let res : Sys × List (Ch × Room) :=
+    match op with
+    | .conn i => sstep d s (.conn i)
+    | .cready i rooms => sstep d s (.request i rooms)
+    | .cevent i r => sstep d s (.request i [r])
+    | .finish i r =>
+      match syncIdx s i r with
+      | some k =>
+        -- the task ends: Unlock is sent, then the room leaves `acquired`
+        let r1 := sstep d s (.task i k)
+        let r2 := sstep d r1.1 (.task i k)
+        (r2.1, r1.2 ++ r2.2)
+      | none => (s, [])
+    | .close i => sstep d s (.close i)
+    | .raw o => sstep d s (.raw o)
+  (settle d res.1, res.2)
+
+/-- the (connection, room) pairs being synchronised, sorted by connection then listed in task order -/
+def syncPairs (s : Sys) : List (Nat × Room) :=
+  s.conns.zipIdx.flatMap fun ci => (ci.1.tasks.filter fun t => t.2 = 1).map fun t => (ci.2, t.1)
 
 end Discret.LockConn
